@@ -292,6 +292,41 @@ TYPE_BRANCHES = {
 }
 
 
+def _lossless_number(v, arg):
+    """True: the expression keeps every bit of float(arg) (str/repr/hex/
+    struct.pack('d')); False: a formatting with limited digits; None:
+    unknown"""
+    fl = f"float({arg})"
+    e = v
+    if isinstance(e, ast.Call) and isinstance(e.func, ast.Attribute) and \
+            e.func.attr == "encode":
+        e = e.func.value
+    t = norm(e)
+    if t in (f"str({fl})", f"repr({fl})", f"{fl}.hex()", f"{fl}.__repr__()"):
+        return True
+    if isinstance(e, ast.Call) and (call_name(e) or "") == "struct.pack" \
+            and e.args and isinstance(e.args[0], ast.Constant) and \
+            str(e.args[0].value).lstrip("<>=!@") in ("d",):
+        return True
+    if isinstance(e, ast.JoinedStr):
+        fv = [x for x in e.values if isinstance(x, ast.FormattedValue)]
+        if len(fv) == 1 and norm(fv[0].value) == fl:
+            if fv[0].format_spec is None:
+                return fv[0].conversion in (-1, 114, 115)
+            spec = norm(fv[0].format_spec).strip("'\"f")
+            return spec in ("", "r", ".17g", ".17e") or False
+        return None
+    if isinstance(e, ast.Call) and isinstance(e.func, ast.Attribute) and \
+            e.func.attr == "format":
+        return False if fl in norm(e) else None
+    if isinstance(e, ast.BinOp) and isinstance(e.op, ast.Mod):
+        return False if fl in norm(e) else None
+    if isinstance(e, ast.Call) and (call_name(e) or "") in (
+            "round", "np.round", "np.float32", "int"):
+        return False
+    return None
+
+
 def r2_encoder(ctx):
     fitm = ctx.repo.mod("fit")
     fn = fitm.func("obj2bytes")
@@ -353,6 +388,15 @@ def r2_encoder(ctx):
             ctx.check(ok, v or fn, f"{t} encoded through float()",
                       f"{t} values are not encoded through float(): 1, 1.0 "
                       "and True would hash differently")
+            if ok:
+                loss = _lossless_number(v, arg)
+                if loss is None:
+                    raise Undecided(f"number encoding {norm(v)[:60]} not "
+                                    "recognised")
+                ctx.check(loss, v, f"{t}: lossless text of the float",
+                          f"numbers are encoded as `{norm(v)[:60]}`, which "
+                          "keeps only part of the digits: two settings "
+                          "that differ beyond them get the same hash")
     # bool must be tested together with / before int (bool is an int) - any
     # order works because all go through float
     if "tuple" in branches:
